@@ -369,12 +369,12 @@ int main(int argc, char **argv)
         return wr_finish();
     }
     if (!only || !strcmp(only, "builtin")) leg_builtin();
-    if (!only || !strcmp(only, "threads")) wr_run_legs("threads", 9, leg_threads, NULL, 90, aux);
+    if (!only || !strcmp(only, "threads")) wr_run_legs("threads", 9, leg_threads, NULL, 240, aux);
     leg_arg_t a = { 'a', 1 }, m1 = { 'm', 1 }, m2 = { 'm', 2 }, m4 = { 'm', 4 }, r = { 'r', 1 };
-    if (!only || !strcmp(only, "map")) { wr_run_legs("map-orders-2cores", jobs > 4 ? 4 : jobs, leg_orders, &m2, 60, aux); wr_run_legs("map-orders-4cores", jobs > 6 ? 6 : jobs, leg_orders, &m4, 60, aux); }
+    if (!only || !strcmp(only, "map")) { wr_run_legs("map-orders-2cores", jobs > 4 ? 4 : jobs, leg_orders, &m2, 600, aux); wr_run_legs("map-orders-4cores", jobs > 6 ? 6 : jobs, leg_orders, &m4, 600, aux); }
     g_parsec = init_ctx(1, NULL);      /* once, in the parent: the forked one-stream hsched workers inherit it */
-    if (!only || !strcmp(only, "map")) wr_run_legs("map-orders-1core", 1, leg_orders, &m1, 60, aux);
-    if (with_reduce && (!only || !strcmp(only, "reduce"))) wr_run_legs("reduce-orders", 3, leg_orders, &r, 60, aux);
-    if (!only || !strcmp(only, "apply")) wr_run_legs("apply-orders", jobs, leg_orders, &a, 60, aux);
+    if (!only || !strcmp(only, "map")) wr_run_legs("map-orders-1core", 1, leg_orders, &m1, 600, aux);
+    if (with_reduce && (!only || !strcmp(only, "reduce"))) wr_run_legs("reduce-orders", 3, leg_orders, &r, 600, aux);
+    if (!only || !strcmp(only, "apply")) wr_run_legs("apply-orders", jobs, leg_orders, &a, 600, aux);
     return wr_finish();
 }
